@@ -87,6 +87,20 @@ CLAIMED = {
         "enumerated per code point, not proved); hand-written model tied by sampled correspondence.",
         "DESIGN.md §7 C18",
     ),
+    "C14": (
+        "Lean 4 proof that Python's string-literal scanner applied to repr(s) ++ anything returns exactly (s, anything) for every string (no-injection lemma), int/bool/path literals; exhaustive repr comparison for all code points; differential and canary tests on the real expression renderer; census of built-in tag value types",
+        "Proved in Lean for every string s, every following text and every isprintable table: the literal repr writes "
+        "is scanned to exactly s and ends exactly where repr ended it (so no character of a value can close the "
+        "literal or start code); ints print as sign + decimal literal without leading zeros denoting the value; "
+        "PosixPath(str(p)) rebuilds p. The model of repr is compared with Python for all 0x110000 code points each run, "
+        "the scanner with Python's tokenizer on hostile strings/continuations; the real process_as_expression + "
+        "evaluate_expression are exercised with hostile str/int/bool/path values (canary side effects) and through "
+        "the CLI; every context-free built-in tag's values on every sample file are checked for eval(repr(v)) == v. "
+        "Partial: values of library-defined types are enumerated, not proved (two known findings: Gpx.StartTime/EndTime).",
+        "Trusted: Lean kernel; CPython's tokenizer/eval semantics of string literals (modelled, compared by "
+        "correspondence); Unicode isprintable table (parameter); eval() with empty globals as used by tempren.",
+        "DESIGN.md §7 C14",
+    ),
 }
 
 NOT_YET = "check not built yet in this snapshot of /verif (work in progress, see DESIGN.md §7)"
